@@ -4,11 +4,10 @@
 `vlib/extractors/pyget.py` TRANSLATES, from /repo's AST on every run (`Extracted/PyGet.lean`):
 * `sqlobject/main.py:SQLObject` — `get`, `_init`, `_SO_finishCreate`, the tail of `destroySelf` (from
   `self._connection._SO_delete(self)` on), `expire`, `__getstate__`, `__setstate__`, `_SO_fetchAlternateID`,
-  `_SO_foreignKey`;
-* `sqlobject/dbconnection.py:Iteration.next`;
+  `_SO_foreignKey`, `delete`; `sqlmeta.expireAll`;
+* `sqlobject/dbconnection.py:Iteration.next`, `DBConnection.expireAll`;
 * `sqlobject/cache.py:CacheSet` — `get`, `put`, `finishPut`, `created`, `expire`, `clear`, `tryGet`,
-  `tryGetByName`, `allIDs`, `allSubCaches`, `allSubCachesByClassNames`, `weakrefAll` (not `getAll`: it
-  extends a list local; `SQLObject.delete` = `get` + the whole of `destroySelf` is C12's).
+  `tryGetByName`, `allIDs`, `allSubCaches`, `allSubCachesByClassNames`, `weakrefAll`, `getAll`.
 This file is the fixed vocabulary and its reference semantics (same design as `Model/PyTx.lean` /
 `Model/PyInherit.lean`): the interpreter is generic in the type `W` of worlds, and everything the translated code
 does to objects other than its own locals goes through an `Iface W` — the PARAMETERS of the interpreter:
@@ -32,7 +31,8 @@ does to objects other than its own locals goes through an `Iface W` — the PARA
 Python features covered: locals (numbered in order of first binding, parameters first; temporaries of hoisted
 calls last), constants, `e[0]` / `e[1:]` of a tuple value (cons cells), `a, b = CALL`, `if` / `elif`, `for x in e`
 (the iterated list is computed when the loop is entered), `try/except KeyError`, `try/finally`, `assert`,
-`raise C(…)` / `raise C` (the class only; the message must be pure), `return`.
+`raise C(…)` / `raise C` (the class only; the message must be pure), `return`, `a or b` as a value,
+`x.extend(e)` on a list local bound only by `x = []`.
 -/
 namespace SqlObjVerif.PyGet
 
@@ -126,6 +126,7 @@ inductive Expr where
   | tail (e : Expr)                                     -- `e[1:]`
   | valuesOf (e : Expr)                                 -- `e.values()`
   | opaq (src : String)
+  | orElse (a b : Expr)                                 -- `a or b` as a value
   | emptyDict
   | emptyList
 deriving Repr
@@ -157,6 +158,7 @@ inductive Stmt where
   | callFn (x : Option Nat) (f : Expr) (args : List Expr) (kwn : List String) (kwv : List Expr)
       (star dstar : Option Expr)
   | opaq (binds : List Nat) (src : String)
+  | extend (x : Nat) (e : Expr)                                -- `x.extend(e)` for a list local nothing else aliases
   | ite (c : Cond) (t e : Block)
   | for1 (x : Nat) (it : Expr) (body : Block)
   | tryExcept (body : Block) (pat : ExcPat) (handler : Block)
@@ -177,6 +179,17 @@ def Env.get (env : Env) (x : Nat) : Option Val :=
   match env[x]? with
   | some (some v) => some v
   | _ => Option.none
+
+/-- `bool(v)`: values by Python's rules, objects through the interface -/
+def pyBool {W : Type} (I : Iface W) (w : W) : Val → Option Bool
+  | .none => some false
+  | .bool b => some b
+  | .int n => some (n != 0)
+  | .str s => some (s != "")
+  | .nil => some false
+  | .cons _ _ => some true
+  | .pair _ _ => some true
+  | v => I.truthy w v
 
 def Expr.eval {W : Type} (I : Iface W) (w : W) (env : Env) : Expr → R Val
   | .var x => match env.get x with
@@ -216,6 +229,12 @@ def Expr.eval {W : Type} (I : Iface W) (w : W) (env : Env) : Expr → R Val
   | .opaq src => match I.opaqE src with
     | some v => .ok v
     | Option.none => .stuck
+  | .orElse a b => match a.eval I w env with
+    | .ok v => (match pyBool I w v with
+      | some true => .ok v
+      | some false => b.eval I w env
+      | Option.none => .stuck)
+    | r => r
   | .emptyDict => .ok .nil
   | .emptyList => .ok .nil
 
@@ -231,17 +250,6 @@ def evalList {W : Type} (I : Iface W) (w : W) (env : Env) : List Expr → R (Lis
 def evalOpt {W : Type} (I : Iface W) (w : W) (env : Env) : Option Expr → R Val
   | Option.none => .ok .none
   | some e => e.eval I w env
-
-/-- `bool(v)`: values by Python's rules, objects through the interface -/
-def pyBool {W : Type} (I : Iface W) (w : W) : Val → Option Bool
-  | .none => some false
-  | .bool b => some b
-  | .int n => some (n != 0)
-  | .str s => some (s != "")
-  | .nil => some false
-  | .cons _ _ => some true
-  | .pair _ _ => some true
-  | v => I.truthy w v
 
 def eval2 {W : Type} (I : Iface W) (w : W) (env : Env) (a b : Expr) : R (Val × Val) :=
   match a.eval I w env with
@@ -370,6 +378,12 @@ def Stmt.exec {W : Type} (I : Iface W) (st : St W) : Stmt → Res W
   | .opaq binds src => match I.opaqS src st.w with
     | some w' => .norm ({ st with w := w' }.setAll binds .opq)
     | Option.none => .stuck
+  | .extend x e => match st.vars.get x, e.eval I st.w st.vars with
+    | some l, .ok v => (match l.toList, v.toList with
+      | some a, some b => .norm (st.setVar x (Val.ofList (a ++ b)))
+      | _, _ => .stuck)
+    | some _, .exc e => .exc st e
+    | _, _ => .stuck
   | .ite c t e => match c.eval I st.w st.vars with
     | .ok true => t.exec I st
     | .ok false => e.exec I st
